@@ -54,6 +54,15 @@ def generate(rng, tier):
             d2["dy"] = None if d0["dy"] is None else [0.01] * len(d2["x"])
             ds.append(SL.finish_dataset(d2, cfg["mat"]))
             k = len(ds)
+        if i % 7 == 3:             # the instance is built with one global window, then qmin / qmax are assigned other values
+            cfg["win_ctor"] = {"Qmin": [0.45, None, 0.2][i % 3], "Qmax": [1.1, 0.9, None][i % 3]}
+            if cfg["Qmin"] is None and cfg["Qmax"] is None:
+                cfg["Qmin"] = 0.12
+        if i % 7 == 5 and not any(d.get("reuse_info_of") is not None for d in ds):   # scale / offsets handed to add_dataset as call keywords; the description has the block but not the entry
+            d0 = ds[i % len(ds)]
+            d0["Y"] = {"Scale": 1.5 + 0.25 * (i % 3), "Offset": 0.1 * (1 + i % 2)}
+            d0["X"] = {"Offset": [0.1, -0.2, 0.3][i % 3]}
+            d0["by_call"] = [[("Y", "Scale")], [("Y", "Offset"), ("X", "Offset")], [("Y", "Scale"), ("Y", "Offset"), ("X", "Offset")], [("X", "Offset")]][(i // 7) % 4]
         if i % 5 == 2:             # an entry with a misspelt function name is rejected just before one of the datasets is added
             rng.choice(ds)["rejected_before"] = rng.choice(["F(Q)", "S(q)", "DCS", "FK(Q) "])
         if i % 4 == 2 and k > 1:   # the scattering lengths are changed between datasets
@@ -67,7 +76,8 @@ def generate(rng, tier):
         cases.append({"cfg": cfg, "datasets": ds,
                       "desc": {"n_datasets": k, "edge_on_shifted_point": i % 3 == 1, "attrs_changed_between": any(d.get("set_before") for d in ds),
                                "global_qmin": cfg["Qmin"] is not None, "global_qmax": cfg["Qmax"] is not None,
-                               "any_xoffset": any(d["X"] is not None for d in ds), "kinds": "".join(str(d["kind"]) for d in ds)}})
+                               "any_xoffset": any(d["X"] is not None for d in ds), "window_reassigned": "win_ctor" in cfg,
+                               "manipulations_by_call_keyword": any(d.get("by_call") for d in ds), "kinds": "".join(str(d["kind"]) for d in ds)}})
     return cases
 
 
